@@ -2064,3 +2064,479 @@ Proof.
   exists (mkenv [(8%nat, VDict [(VTuple [VInt 1; VInt 2], VInt 3)])]), []. do 2 eexists.
   split; [reflexivity|]. split; [vm_compute; reflexivity|]. split; [vm_compute; reflexivity|]. discriminate.
 Qed.
+
+(* =========================================================================================== *)
+(* Part 7: expressions without calls of unknown functions neither read nor extend the trace *)
+
+Definition lift_tr {A} (o : option A) (tr : trace) : option (A * trace) :=
+  match o with Some a => Some (a, tr) | None => None end.
+
+Definition pure_at (w : world) (e : cx) : Prop :=
+  forall en, exists o, forall tr, eval w e en tr = lift_tr o tr.
+
+Definition pure_parts (w : world) (e : cx) : Prop :=
+  match e with
+  | XGen _ it ifs => pure_at w it /\ Forall (pure_at w) ifs
+  | XKV k v => pure_at w k /\ pure_at w v
+  | XDStar v => pure_at w v
+  | _ => True
+  end.
+
+Lemma pure_ev_list : forall w l, Forall (pure_at w) l ->
+  forall en, exists o, forall tr, ev_list (eval w) en l tr = lift_tr o tr.
+Proof.
+  intros w l H. induction H as [|a l Ha _ IH]; intros en.
+  - exists (Some []). reflexivity.
+  - destruct (Ha en) as [oa Ea]. destruct (IH en) as [ol El]. destruct oa as [v|].
+    + destruct ol as [vs|]; [exists (Some (v :: vs)) | exists None]; intros tr; cbn [ev_list]; rewrite Ea; cbn [lift_tr];
+        rewrite El; reflexivity.
+    + exists None. intros tr. cbn [ev_list]. rewrite Ea. reflexivity.
+Qed.
+
+Lemma pure_ev_conds : forall w l, Forall (pure_at w) l ->
+  forall en, exists o, forall tr, ev_conds (eval w) en l tr = lift_tr o tr.
+Proof.
+  intros w l H. induction H as [|a l Ha _ IH]; intros en.
+  - exists (Some true). reflexivity.
+  - destruct (Ha en) as [oa Ea]. destruct (IH en) as [ol El]. destruct oa as [v|].
+    + destruct (truthy v) eqn:T.
+      * exists ol. intros tr. cbn [ev_conds]. rewrite Ea. cbn [lift_tr]. rewrite T. apply El.
+      * exists (Some false). intros tr. cbn [ev_conds]. rewrite Ea. cbn [lift_tr]. rewrite T. reflexivity.
+    + exists None. intros tr. cbn [ev_conds]. rewrite Ea. reflexivity.
+Qed.
+
+Lemma pure_ev_bool : forall w b l, Forall (pure_at w) l ->
+  forall en, exists o, forall tr, ev_bool (eval w) b en l tr = lift_tr o tr.
+Proof.
+  intros w b l H. induction H as [|a l Ha _ IH]; intros en.
+  - exists None. reflexivity.
+  - destruct (Ha en) as [oa Ea]. destruct (IH en) as [ol El]. destruct oa as [v|].
+    + destruct l as [|a2 l].
+      * exists (Some v). intros tr. cbn [ev_bool]. rewrite Ea. reflexivity.
+      * destruct (Bool.eqb (truthy v) b) eqn:T.
+        -- exists ol. intros tr. cbn [ev_bool]. rewrite Ea. cbn [lift_tr]. rewrite T. apply El.
+        -- exists (Some v). intros tr. cbn [ev_bool]. rewrite Ea. cbn [lift_tr]. rewrite T. reflexivity.
+    + exists None. intros tr. cbn [ev_bool]. rewrite Ea. reflexivity.
+Qed.
+
+Definition pure_item (w : world) (it : cx) : Prop :=
+  match it with
+  | XKV k v => pure_at w k /\ pure_at w v
+  | XDStar v => pure_at w v
+  | _ => True
+  end.
+
+Lemma pure_ev_items : forall w l, Forall (pure_item w) l ->
+  forall en d, exists o, forall tr, ev_items (eval w) en l d tr = lift_tr o tr.
+Proof.
+  intros w l H. induction H as [|a l Ha _ IH]; intros en d.
+  - exists (Some d). reflexivity.
+  - destruct a; try (exists None; reflexivity); cbn [pure_item] in Ha.
+    + destruct Ha as [Hk Hv]. destruct (Hk en) as [ok Ek]. destruct (Hv en) as [ov Ev].
+      destruct ok as [kv|]; [|exists None; intros tr; cbn [ev_items]; rewrite Ek; reflexivity].
+      destruct ov as [vv|]; [|exists None; intros tr; cbn [ev_items]; rewrite Ek; cbn [lift_tr]; rewrite Ev; reflexivity].
+      destruct (hashable kv) eqn:Hh.
+      * destruct (IH en (dict_set d kv vv)) as [ol El]. exists ol. intros tr. cbn [ev_items]. rewrite Ek. cbn [lift_tr].
+        rewrite Ev. cbn [lift_tr]. rewrite Hh. apply El.
+      * exists None. intros tr. cbn [ev_items]. rewrite Ek. cbn [lift_tr]. rewrite Ev. cbn [lift_tr]. rewrite Hh. reflexivity.
+    + destruct (Ha en) as [ov Ev]. destruct ov as [[]|];
+        try (exists None; intros tr; cbn [ev_items]; rewrite Ev; reflexivity).
+      destruct (IH en (dict_update d d0)) as [ol El]. exists ol. intros tr. cbn [ev_items]. rewrite Ev. apply El.
+Qed.
+
+(* clause machinery whose pieces are pure *)
+Definition pure_k (k : env -> trace -> list val -> res) : Prop :=
+  forall en acc, exists o, forall tr, k en tr acc = lift_tr o tr.
+
+Lemma pure_iter_items : forall body t, pure_k body -> forall xs, pure_k (iter_items body t xs).
+Proof.
+  intros body t Hb. induction xs as [|x xs IH]; intros en acc.
+  - exists (Some (en, acc)). reflexivity.
+  - destruct (bind t x en) as [en'|] eqn:B; [|exists None; intros tr; cbn [iter_items]; rewrite B; reflexivity].
+    destruct (Hb en' acc) as [ob Eb]. destruct ob as [[e2 a2]|].
+    + destruct (IH e2 a2) as [ol El]. exists ol. intros tr. cbn [iter_items]. rewrite B, Eb. apply El.
+    + exists None. intros tr. cbn [iter_items]. rewrite B, Eb. reflexivity.
+Qed.
+
+Lemma pure_clause_body : forall w ifs k, Forall (pure_at w) ifs -> pure_k k -> pure_k (clause_body (eval w) ifs k).
+Proof.
+  intros w ifs k Hifs Hk en acc. destruct (pure_ev_conds w ifs Hifs en) as [oc Ec]. destruct oc as [[]|].
+  - destruct (Hk en acc) as [ok Ek]. exists ok. intros tr. unfold clause_body. rewrite Ec. apply Ek.
+  - exists (Some (en, acc)). intros tr. unfold clause_body. rewrite Ec. reflexivity.
+  - exists None. intros tr. unfold clause_body. rewrite Ec. reflexivity.
+Qed.
+
+Definition pure_gen (w : world) (g : cx) : Prop :=
+  match g with XGen _ it ifs => pure_at w it /\ Forall (pure_at w) ifs | _ => True end.
+
+Lemma pure_run_gens : forall w leaf gens, pure_k leaf -> Forall (pure_gen w) gens -> pure_k (run_gens (eval w) leaf gens).
+Proof.
+  intros w leaf gens Hl H. induction H as [|g gens Hg _ IH]; intros en acc.
+  - destruct (Hl en acc) as [o E]. exists o. exact E.
+  - destruct g; try (exists None; reflexivity). cbn [pure_gen] in Hg. destruct Hg as [Hit Hifs].
+    destruct (Hit en) as [oi Ei]. destruct oi as [v|]; [|exists None; intros tr; cbn [run_gens]; rewrite Ei; reflexivity].
+    destruct (items_of v) as [xs|] eqn:Hv; [|exists None; intros tr; cbn [run_gens]; rewrite Ei; cbn [lift_tr]; rewrite Hv; reflexivity].
+    destruct (pure_iter_items _ t (pure_clause_body w ifs _ Hifs IH) xs en acc) as [o E].
+    exists o. intros tr. cbn [run_gens]. rewrite Ei. cbn [lift_tr]. rewrite Hv. apply E.
+Qed.
+
+Lemma pure_leaf_of : forall w k elt dval, pure_at w elt -> pure_at w dval -> pure_k (leaf_of (eval w) k elt dval).
+Proof.
+  intros w k elt dval He Hd en acc. destruct (He en) as [oe Ee]. destruct oe as [v|]; [|exists None; intros tr; unfold leaf_of; rewrite Ee; reflexivity].
+  destruct k; try (exists (Some (en, acc ++ [v])); intros tr; unfold leaf_of; rewrite Ee; reflexivity).
+  destruct (Hd en) as [od Ed]. destruct od as [dv|].
+  - exists (Some (en, acc ++ [VTuple [v; dv]])). intros tr. unfold leaf_of. rewrite Ee. cbn [lift_tr]. rewrite Ed. reflexivity.
+  - exists None. intros tr. unfold leaf_of. rewrite Ee. cbn [lift_tr]. rewrite Ed. reflexivity.
+Qed.
+
+Lemma effect_pure : forall w e, effect e = false -> pure_at w e /\ pure_parts w e.
+Proof.
+  intros w e. induction e using cx_ind'; intros He; cbn [effect] in He; try discriminate.
+  - split; [|exact I]. intros en. exists (Some (val_of_atom a)). reflexivity.
+  - split; [|exact I]. intros en. exists (en x). intros tr. cbn [eval]. destruct (en x); reflexivity.
+  - (* XBi *)
+    split; [|exact I]. intros en.
+    assert (HF : Forall (pure_at w) args).
+    { rewrite Forall_forall in *. intros a0 Ha. apply (H a0 Ha). destruct (effect a0) eqn:E; [|reflexivity].
+      assert (existsb effect args = true) by (apply existsb_exists; exists a0; split; assumption). congruence. }
+    destruct (pure_ev_list w args HF en) as [o E]. destruct o as [vs|].
+    + exists (capply b vs). intros tr. cbn [eval]. rewrite E. cbn [lift_tr]. destruct (capply b vs); reflexivity.
+    + exists None. intros tr. cbn [eval]. rewrite E. reflexivity.
+  - (* XSeq *)
+    split; [|exact I]. intros en.
+    assert (HF : Forall (pure_at w) args).
+    { rewrite Forall_forall in *. intros a0 Ha. apply (H a0 Ha). destruct (effect a0) eqn:E; [|reflexivity].
+      assert (existsb effect args = true) by (apply existsb_exists; exists a0; split; assumption). congruence. }
+    destruct (pure_ev_list w args HF en) as [o E]. destruct o as [vs|].
+    + exists (match k with KList => Some (VList vs) | KTuple => Some (VTuple vs) | KSet => mkset vs end).
+      intros tr. cbn [eval]. rewrite E. cbn [lift_tr]. destruct k; reflexivity.
+    + exists None. intros tr. cbn [eval]. rewrite E. reflexivity.
+  - (* XDict *)
+    split; [|exact I]. intros en.
+    assert (HF : Forall (pure_item w) args).
+    { rewrite Forall_forall in *. intros a0 Ha.
+      assert (E0 : effect a0 = false).
+      { destruct (effect a0) eqn:E; [|reflexivity].
+        assert (existsb effect args = true) by (apply existsb_exists; exists a0; split; assumption). congruence. }
+      destruct (H a0 Ha E0) as [_ Hp]. destruct a0; cbn [pure_item pure_parts] in *; try exact I; exact Hp. }
+    destruct (pure_ev_items w args HF en []) as [o E]. destruct o as [d|].
+    + exists (Some (VDict d)). intros tr. cbn [eval]. rewrite E. reflexivity.
+    + exists None. intros tr. cbn [eval]. rewrite E. reflexivity.
+  - (* XBin *)
+    apply orb_false_iff in He as [H1 H2]. destruct (IHe1 H1) as [P1 _]. destruct (IHe2 H2) as [P2 _].
+    split; [|exact I]. intros en. destruct (P1 en) as [o1 E1]. destruct (P2 en) as [o2 E2].
+    destruct o1 as [a|]; [|exists None; intros tr; cbn [eval]; rewrite E1; reflexivity].
+    destruct o2 as [b|]; [|exists None; intros tr; cbn [eval]; rewrite E1; cbn [lift_tr]; rewrite E2; reflexivity].
+    exists (binop_val o a b). intros tr. cbn [eval]. rewrite E1. cbn [lift_tr]. rewrite E2. cbn [lift_tr].
+    destruct (binop_val o a b); reflexivity.
+  - destruct (IHe He) as [P _]. split; [|exact I]. intros en. destruct (P en) as [o E]. destruct o as [v|].
+    + exists (match num v with Some z => Some (VInt (- z)) | None => None end). intros tr. cbn [eval]. rewrite E.
+      cbn [lift_tr]. destruct (num v); reflexivity.
+    + exists None. intros tr. cbn [eval]. rewrite E. reflexivity.
+  - destruct (IHe He) as [P _]. split; [|exact I]. intros en. destruct (P en) as [o E]. destruct o as [v|].
+    + exists (Some (VBool (negb (truthy v)))). intros tr. cbn [eval]. rewrite E. reflexivity.
+    + exists None. intros tr. cbn [eval]. rewrite E. reflexivity.
+  - (* XBool *)
+    split; [|exact I]. intros en.
+    assert (HF : Forall (pure_at w) args).
+    { rewrite Forall_forall in *. intros a0 Ha. apply (H a0 Ha). destruct (effect a0) eqn:E; [|reflexivity].
+      assert (existsb effect args = true) by (apply existsb_exists; exists a0; split; assumption). congruence. }
+    destruct (pure_ev_bool w a args HF en) as [o E]. exists o. intros tr. cbn [eval]. apply E.
+  - (* XComp *)
+    apply orb_false_iff in He as [He Hg]. apply orb_false_iff in He as [H1 H2].
+    destruct (IHe1 H1) as [P1 _]. destruct (IHe2 H2) as [P2 _].
+    split; [|exact I]. intros en.
+    destruct gens as [|g rest]; [exists None; reflexivity|]. destruct g; try (exists None; reflexivity).
+    cbn [existsb] in Hg. apply orb_false_iff in Hg as [Hg1 Hgr].
+    inversion H as [|? ? Hfirst Hrest]; subst. destruct (Hfirst Hg1) as [_ [Pit Pifs]].
+    assert (HGr : Forall (pure_gen w) rest).
+    { rewrite Forall_forall in *. intros a0 Ha.
+      assert (E0 : effect a0 = false).
+      { destruct (effect a0) eqn:E; [|reflexivity].
+        assert (existsb effect rest = true) by (apply existsb_exists; exists a0; split; assumption). congruence. }
+      destruct (Hrest a0 Ha E0) as [_ Hp]. destruct a0; cbn [pure_gen pure_parts] in *; try exact I; exact Hp. }
+    destruct (Pit en) as [oi Ei]. destruct oi as [v|]; [|exists None; intros tr; cbn [eval]; rewrite Ei; reflexivity].
+    destruct (items_of v) as [xs|] eqn:Hv; [|exists None; intros tr; cbn [eval]; rewrite Ei; cbn [lift_tr]; rewrite Hv; reflexivity].
+    destruct (pure_iter_items _ t
+                (pure_clause_body w ifs _ Pifs (pure_run_gens w _ rest (pure_leaf_of w k e1 e2 P1 P2) HGr))
+                xs (mask (gens_targets (XGen t g ifs :: rest)) en) []) as [o E].
+    destruct o as [[e' acc]|].
+    + exists (finish k acc). intros tr. cbn [eval]. rewrite Ei. cbn [lift_tr]. rewrite Hv, E. cbn [lift_tr].
+      destruct (finish k acc); reflexivity.
+    + exists None. intros tr. cbn [eval]. rewrite Ei. cbn [lift_tr]. rewrite Hv, E. reflexivity.
+  - (* XGen *)
+    apply orb_false_iff in He as [H1 H2]. split.
+    + intros en. exists None. reflexivity.
+    + cbn [pure_parts]. split; [apply IHe, H1|].
+      rewrite Forall_forall in *. intros a0 Ha. apply (H a0 Ha). destruct (effect a0) eqn:E; [|reflexivity].
+      assert (existsb effect ifs = true) by (apply existsb_exists; exists a0; split; assumption). congruence.
+  - apply orb_false_iff in He as [H1 H2]. split.
+    + intros en. exists None. reflexivity.
+    + cbn [pure_parts]. split; [apply IHe1, H1 | apply IHe2, H2].
+  - split.
+    + intros en. exists None. reflexivity.
+    + cbn [pure_parts]. apply IHe, He.
+Qed.
+
+Lemma pure_eval : forall w e en, effect e = false -> exists o, forall tr, eval w e en tr = lift_tr o tr.
+Proof. intros w e en H. destruct (effect_pure w e H) as [P _]. apply P. Qed.
+
+(* ---- d[k] = v in a nest  ~  a dict comprehension ---- *)
+
+Lemma pairs_dict_snoc : forall acc d k v,
+  pairs_dict (acc ++ [VTuple [k; v]]) d =
+  match pairs_dict acc d with
+  | Some d' => if hashable k then Some (dict_set d' k v) else None
+  | None => None
+  end.
+Proof.
+  induction acc as [|a acc IH]; intros d k v; cbn [app pairs_dict].
+  - destruct (hashable k); reflexivity.
+  - destruct a; try reflexivity. destruct l as [|k1 [|v1 [|? ?]]]; try reflexivity.
+    destruct (hashable k1); [apply IH | reflexivity].
+Qed.
+
+Lemma pairs_dict_start : forall acc d0 dc0 d1, wfd dc0 ->
+  pairs_dict acc (dict_update d0 dc0) = Some d1 ->
+  exists dc, pairs_dict acc dc0 = Some dc /\ d1 = dict_update d0 dc.
+Proof.
+  induction acc as [|a acc IH]; intros d0 dc0 d1 Hw H; cbn [pairs_dict] in *.
+  - inversion H. exists dc0. split; reflexivity.
+  - destruct a; try discriminate. destruct l as [|k1 [|v1 [|? ?]]]; try discriminate.
+    destruct (hashable k1); [|discriminate]. rewrite <- (update_set dc0 d0 k1 v1 Hw) in H.
+    apply (IH d0 (dict_set dc0 k1 v1) d1 (wfd_set dc0 k1 v1 Hw) H).
+Qed.
+
+Theorem dict_nest_sound : forall w x cl k v d0 en tr el' tr',
+  nest_guard x [] cl [k; v] = true -> effect k && effect v = false ->
+  exec_block w (build cl [SSetItem x k v]) (upd en x (VDict d0)) tr = Some (el', tr') ->
+  exists dc,
+    eval w (XComp CDict k v (map (gen_of true) cl)) en tr = Some (VDict dc, tr')
+    /\ el' x = Some (VDict (dict_update d0 dc))
+    /\ (forall y, y <> x -> memn y (clause_targets cl) = false -> el' y = en y).
+Proof.
+  intros w x cl k v d0 en tr el' tr' G Hpure Hex.
+  destruct (nest_guard_parts _ _ _ _ G) as [Ge [Gx [GF Gs]]].
+  destruct (Ge k (or_introl eq_refl)) as [Hxk HFk].
+  destruct (Ge v (or_intror (or_introl eq_refl))) as [Hxv HFv].
+  destruct cl as [|[[t it] ifs] cl]; [discriminate|].
+  set (T := clause_targets ((t, it, ifs) :: cl)) in *.
+  destruct (top_sim w x [] T [] [SSetItem x k v] (leaf_of (eval w) CDict k v)
+              (fun c acc => exists d, c = VDict d /\ pairs_dict acc d0 = Some d) true) with
+      (t := t) (it := it) (ifs := ifs) (cl := cl) (M := T) (en := en) (el := upd en x (VDict d0))
+      (c := VDict d0) (tr := tr) (el' := el') (tr' := tr')
+    as [iv [tr1 [xs [ec' [acc [c' [E1 [E2 [E3 [E4 [[d1 [E5 E5']] E6]]]]]]]]]]]; try assumption; try reflexivity.
+  - (* the leaf: the value is evaluated first in the loop, the key first in the comprehension; one of them
+       neither reads nor extends the trace *)
+    intros Bd el ec tr0 acc c el0 tr0' Hall A Hx [d [Hc HI]] Hl. subst c.
+    rewrite exec_block1 in Hl. cbn [exec] in Hl.
+    rewrite (leaf_frame w x [] T Bd v el ec tr0 Hall Hxv HFv A) in Hl.
+    destruct (eval w v ec tr0) as [[vv tr1]|] eqn:Ev; [|discriminate]. rewrite Hx in Hl.
+    rewrite (leaf_frame w x [] T Bd k el ec tr1 Hall Hxk HFk A) in Hl.
+    destruct (eval w k ec tr1) as [[kv tr2]|] eqn:Ek; [|discriminate].
+    destruct (hashable kv) eqn:Hh; [|discriminate]. inversion Hl; subst el0 tr0'. clear Hl.
+    assert (Hcomp : eval w k ec tr0 = Some (kv, if effect k then tr2 else tr0)
+                    /\ eval w v ec (if effect k then tr2 else tr0) = Some (vv, tr2)).
+    { apply andb_false_iff in Hpure as [Hp|Hp].
+      - rewrite Hp. destruct (pure_eval w k ec Hp) as [o Eo]. rewrite Eo in Ek. destruct o as [kv'|]; [|discriminate].
+        cbn [lift_tr] in Ek. inversion Ek; subst. split; [rewrite Eo; reflexivity | exact Ev].
+      - destruct (pure_eval w v ec Hp) as [o Eo]. rewrite Eo in Ev. destruct o as [vv'|]; [|discriminate].
+        cbn [lift_tr] in Ev. inversion Ev; subst. destruct (effect k) eqn:Ek0; [split; [exact Ek | rewrite Eo; reflexivity]|].
+        destruct (pure_eval w k ec Ek0) as [o2 Eo2]. rewrite Eo2 in Ek. destruct o2; [|discriminate].
+        cbn [lift_tr] in Ek. inversion Ek; subst. split; [rewrite Eo2; reflexivity | rewrite Eo; reflexivity]. }
+    destruct Hcomp as [Hk1 Hv1]. unfold leaf_of. rewrite Hk1, Hv1.
+    exists ec, (acc ++ [VTuple [kv; vv]]), (VDict (dict_set d kv vv)). repeat split.
+    + unfold upd. rewrite Nat.eqb_refl. reflexivity.
+    + exists (dict_set d kv vv). split; [reflexivity|]. rewrite pairs_dict_snoc, HI, Hh. reflexivity.
+    + intros y Hy. rewrite (SB_other x [] T Bd el y _ Hy). apply A, Hy.
+    + intros y Hy _. unfold upd. apply Nat.eqb_neq in Hy. rewrite Hy. reflexivity.
+  - intros y Hy. left. exact Hy.
+  - intros y Hy _. unfold upd. apply Nat.eqb_neq in Hy. rewrite Hy. reflexivity.
+  - unfold upd. rewrite Nat.eqb_refl. reflexivity.
+  - exists d0. split; reflexivity.
+  - assert (Hd0 : d0 = dict_update d0 []) by reflexivity. rewrite Hd0 in E5'.
+    destruct (pairs_dict_start acc d0 [] d1 I E5') as [dc [Hdc Hd1]].
+    exists dc. split; [|split].
+    + cbn [eval map gen_of]. rewrite E1, E2. cbn [gens_targets]. rewrite gens_targets_map.
+      change (tnames t ++ clause_targets cl) with T. rewrite E3. cbn [finish]. rewrite Hdc. reflexivity.
+    + rewrite E4, E5, Hd1. reflexivity.
+    + intros y Hy HT. rewrite (E6 y Hy eq_refl HT). unfold upd. apply Nat.eqb_neq in Hy. rewrite Hy. reflexivity.
+Qed.
+
+(* dicts that evaluation builds have no duplicate keys; re-inserting their items in order rebuilds them *)
+Lemma dict_set_new : forall d k v, dict_has d k = false -> dict_set d k v = d ++ [(k, v)].
+Proof.
+  induction d as [|[k0 v0] d IH]; intros k v H; [reflexivity|]. cbn [dict_set]. cbn [dict_has existsb fst] in H.
+  apply orb_false_iff in H as [H1 H2]. rewrite H1. cbn [app]. f_equal. apply IH. exact H2.
+Qed.
+
+Lemma dict_has_app : forall a b k, dict_has (a ++ b) k = dict_has a k || dict_has b k.
+Proof. intros. unfold dict_has. apply existsb_app. Qed.
+
+Lemma wfd_rebuild_from : forall d acc, wfd d ->
+  forallb (fun kv => negb (dict_has acc (fst kv))) d = true -> dict_update acc d = acc ++ d.
+Proof.
+  induction d as [|[k v] d IH]; intros acc Hw Hn; unfold dict_update in *; cbn [fold_left fst snd].
+  - rewrite app_nil_r. reflexivity.
+  - cbn [forallb fst] in Hn. apply andb_true_iff in Hn as [Hk Hn]. apply negb_true_iff in Hk.
+    destruct Hw as [Hnot Hw]. rewrite (dict_set_new acc k v Hk). rewrite IH; [rewrite <- app_assoc; reflexivity | exact Hw |].
+    rewrite forallb_forall in *. intros [k1 v1] Hin. specialize (Hn _ Hin). cbn [fst] in *.
+    apply negb_true_iff in Hn. apply negb_true_iff. rewrite dict_has_app, Hn. cbn [dict_has existsb fst orb].
+    rewrite orb_false_r.
+    (* k is not among the later keys *)
+    destruct (key_eqb k k1) eqn:E; [|reflexivity].
+    assert (dict_has d k = true).
+    { unfold dict_has. apply existsb_exists. exists (k1, v1). split; [exact Hin|]. cbn [fst]. rewrite key_eqb_sym. exact E. }
+    congruence.
+Qed.
+
+Lemma wfd_rebuild : forall d, wfd d -> dict_update [] d = d.
+Proof.
+  intros d H. rewrite (wfd_rebuild_from d [] H); [reflexivity|]. apply forallb_forall. intros kv _. reflexivity.
+Qed.
+
+Lemma wfd_ev_items : forall w en l d tr d' tr', wfd d -> ev_items (eval w) en l d tr = Some (d', tr') -> wfd d'.
+Proof.
+  induction l as [|a l IH]; intros d tr d' tr' Hw H; cbn [ev_items] in H.
+  - inversion H; subst. exact Hw.
+  - destruct a; try discriminate.
+    + destruct (eval w a1 en tr) as [[kv tr1]|]; [|discriminate]. destruct (eval w a2 en tr1) as [[vv tr2]|]; [|discriminate].
+      destruct (hashable kv); [|discriminate]. eapply IH; [|exact H]. apply wfd_set, Hw.
+    + destruct (eval w a en tr) as [[[] tr1]|]; try discriminate. eapply IH; [|exact H]. apply wfd_update, Hw.
+Qed.
+
+Lemma wfd_pairs_dict : forall acc d d', wfd d -> pairs_dict acc d = Some d' -> wfd d'.
+Proof.
+  induction acc as [|a acc IH]; intros d d' Hw H; cbn [pairs_dict] in H.
+  - inversion H; subst. exact Hw.
+  - destruct a; try discriminate. destruct l as [|k1 [|v1 [|? ?]]]; try discriminate.
+    destruct (hashable k1); [|discriminate]. eapply IH; [|exact H]. apply wfd_set, Hw.
+Qed.
+
+Lemma ev_items_app : forall w en l1 l2 d tr,
+  ev_items (eval w) en (l1 ++ l2) d tr =
+  match ev_items (eval w) en l1 d tr with Some (d', tr') => ev_items (eval w) en l2 d' tr' | None => None end.
+Proof.
+  induction l1 as [|a l1 IH]; intros l2 d tr; cbn [app ev_items]; [reflexivity|].
+  destruct a; try reflexivity.
+  - destruct (eval w a1 en tr) as [[kv tr1]|]; [|reflexivity]. destruct (eval w a2 en tr1) as [[vv tr2]|]; [|reflexivity].
+    destruct (hashable kv); [apply IH | reflexivity].
+  - destruct (eval w a en tr) as [[[] tr1]|]; try reflexivity. apply IH.
+Qed.
+
+(* the start values of replace_for_loops_with_dict_comp evaluate to dicts without duplicate keys *)
+Lemma dict_start_wfd : forall w value en tr c tr',
+  (match value with XDict _ | XComp CDict _ _ _ => true | _ => false end) = true ->
+  eval w value en tr = Some (c, tr') -> exists d, c = VDict d /\ wfd d.
+Proof.
+  intros w value en tr c tr' Hv He. destruct value; try discriminate.
+  - cbn [eval] in He. destruct (ev_items (eval w) en items [] tr) as [[d t1]|] eqn:E; [|discriminate].
+    inversion He; subst. exists d. split; [reflexivity|]. eapply wfd_ev_items; [|exact E]. exact I.
+  - destruct k; try discriminate. cbn [eval] in He.
+    destruct gens as [|g rest]; [discriminate|]. destruct g; try discriminate.
+    destruct (eval w g en tr) as [[iv t1]|]; [|discriminate]. destruct (items_of iv) as [xs|]; [|discriminate].
+    destruct (iter_items _ t xs _ t1 []) as [[[e' acc] t2]|]; [|discriminate]. cbn [finish] in He.
+    destruct (pairs_dict acc []) as [d|] eqn:E; [|discriminate]. inversion He; subst. exists d. split; [reflexivity|].
+    eapply wfd_pairs_dict; [|exact E]. exact I.
+Qed.
+
+Theorem dictcomp_site_sound : forall w after s1 s2 s',
+  site_dictcomp after s1 s2 = Some s' -> site_scoped s1 s2 = true ->
+  forall en tr en1 tr1, exec_block w [s1; s2] en tr = Some (en1, tr1) ->
+  exists en2, exec_block w [s'] en tr = Some (en2, tr1)
+    /\ forall y, memn y (site_targets s2) = false -> en1 y = en2 y.
+Proof.
+  intros w after s1 s2 s' Hs Hsc en tr en1 tr1 Hex.
+  unfold site_dictcomp in Hs. unfold site_scoped in Hsc. unfold site_targets.
+  destruct s1 as [x value| | | | | |]; try discriminate.
+  destruct (loop_shape s2) as [[cl leaf]|] eqn:Hshape; [|discriminate].
+  pose proof (loop_shape_sound _ _ _ Hshape) as Hb.
+  destruct leaf as [| | | x' k v | | |]; try discriminate.
+  destruct (Nat.eqb x' x) eqn:Ex; [|discriminate]. apply Nat.eqb_eq in Ex. subst x'. cbn [andb] in Hs.
+  destruct (mentions x k) eqn:Hxk; [discriminate|]. destruct (mentions x v) eqn:Hxv; [discriminate|].
+  destruct (existsb (mentions x) (map (gen_of true) cl)) eqn:Hxg; [discriminate|]. cbn [negb andb] in Hs.
+  destruct (dead_after after (clause_targets cl)); [|discriminate]. cbn [andb] in Hs.
+  destruct (effect k && effect v) eqn:Hpure; [discriminate|]. cbn [negb] in Hs.
+  assert (G : nest_guard x [] cl [k; v] = true).
+  { unfold nest_guard. cbn [forallb]. rewrite Hxk, Hxv, (gens_mention_targets x true cl Hxg), Hsc. reflexivity. }
+  change [SAssign x value; s2] with ([SAssign x value] ++ [s2]) in Hex. rewrite exec_block_app, Hb in Hex.
+  rewrite exec_block1 in Hex. cbn [exec] in Hex.
+  destruct (eval w value en tr) as [[c0 tr0]|] eqn:Ev; [|discriminate].
+  assert (Hstart : (match value with XDict _ | XComp CDict _ _ _ => true | _ => false end) = true).
+  { destruct value; try discriminate; try reflexivity. destruct k0; try discriminate; reflexivity. }
+  destruct (dict_start_wfd w value en tr c0 tr0 Hstart Ev) as [d0 [-> Hw0]].
+  destruct (dict_nest_sound w x cl k v d0 en tr0 en1 tr1 G Hpure Hex) as [dc [E1 [E2 E3]]].
+  assert (Hfinal : forall e', eval w e' en tr = Some (VDict (dict_update d0 dc), tr1) ->
+            exists en2, exec_block w [SAssign x e'] en tr = Some (en2, tr1)
+              /\ forall y, memn y (clause_targets cl) = false -> en1 y = en2 y).
+  { intros e' He'. exists (upd en x (VDict (dict_update d0 dc))). split.
+    - rewrite exec_block1. cbn [exec]. rewrite He'. reflexivity.
+    - intros y Hy. destruct (Nat.eq_dec y x) as [->|Hn]; [rewrite E2, upd_same; reflexivity|].
+      rewrite (E3 y Hn Hy), upd_other by exact Hn. reflexivity. }
+  (* {**value, **comp}: the first unpacking rebuilds value *)
+  assert (Hwrap : eval w (XDict [XDStar value; XDStar (XComp CDict k v (map (gen_of true) cl))]) en tr
+                  = Some (VDict (dict_update d0 dc), tr1)).
+  { cbn [eval ev_items]. rewrite Ev. cbn [eval] in E1. rewrite E1.
+    change (dict_update [] d0) with (dict_update [] d0). rewrite (wfd_rebuild d0 Hw0). reflexivity. }
+  destruct value as [| | | | | items | | | | | kk ee dd gg | | | | |]; try discriminate.
+  - (* a display *)
+    destruct items as [|i0 items].
+    + (* {} *)
+      inversion Hs; subst s'. apply Hfinal. cbn [eval ev_items] in Ev. inversion Ev; subst.
+      rewrite E1. unfold dict_update. cbn [fold_left].
+      assert (Hr : fold_left (fun d kv => dict_set d (fst kv) (snd kv)) dc [] = dc).
+      { apply (wfd_rebuild dc). cbn [eval] in E1.
+        destruct cl as [|[[t it] ifs] cl]; [discriminate|]. cbn [map gen_of] in E1.
+        destruct (eval w it en tr0) as [[iv t1]|]; [|discriminate]. destruct (items_of iv) as [xs|]; [|discriminate].
+        destruct (iter_items _ t xs _ t1 []) as [[[e' acc] t2]|]; [|discriminate]. cbn [finish] in E1.
+        destruct (pairs_dict acc []) as [d|] eqn:E; [|discriminate]. inversion E1; subst.
+        eapply wfd_pairs_dict; [|exact E]. exact I. }
+      rewrite Hr. reflexivity.
+    + destruct (forallb is_dstar (i0 :: items)) eqn:Hall.
+      * (* only unpackings: the comprehension is unpacked after them *)
+        inversion Hs; subst s'. apply Hfinal. cbn [eval] in Ev |- *.
+        destruct (ev_items (eval w) en (i0 :: items) [] tr) as [[dd tt]|] eqn:Ei; [|discriminate].
+        inversion Ev; subst dd tt. rewrite ?app_comm_cons. rewrite ev_items_app, Ei. cbn [ev_items]. rewrite E1. reflexivity.
+      * inversion Hs; subst s'. apply Hfinal. exact Hwrap.
+  - (* a dict comprehension *)
+    destruct kk; try discriminate. inversion Hs; subst s'. apply Hfinal. exact Hwrap.
+Qed.
+
+Lemma dictcomp_dead : forall after s1 s2 s', site_dictcomp after s1 s2 = Some s' ->
+  dead_after after (site_targets s2) = true.
+Proof.
+  intros after s1 s2 s' Hs. unfold site_dictcomp in Hs. unfold site_targets.
+  destruct s1 as [x value| | | | | |]; try discriminate.
+  destruct (loop_shape s2) as [[cl leaf]|]; [|discriminate].
+  destruct leaf as [| | | x' k v | | |]; try discriminate.
+  destruct (dead_after after (clause_targets cl)) eqn:E; [reflexivity|]. exfalso.
+  rewrite !andb_false_r in Hs. cbn [andb] in Hs. discriminate.
+Qed.
+
+Theorem dictcomp_in_context : forall w s1 s2 s' rest,
+  site_dictcomp (fun n => blk_rd n rest) s1 s2 = Some s' -> site_scoped s1 s2 = true ->
+  site_rel w (site_targets s2) (s1 :: s2 :: rest) (s' :: rest).
+Proof.
+  intros w s1 s2 s' rest Hs Hsc.
+  apply (in_context w (site_targets s2) [s1; s2] [s'] rest).
+  - intros en tr en1 tr1 Hex. eapply dictcomp_site_sound; eassumption.
+  - apply dead_after_blk. eapply dictcomp_dead; eassumption.
+Qed.
+
+(* the rule as it was before 7f19a3d: key and value both call *)
+Definition site_dictcomp_old (s1 s2 : st) : option st :=
+  match s1, loop_shape s2 with
+  | SAssign x (XDict []), Some (cl, SSetItem x' k v) =>
+      if Nat.eqb x' x then Some (SAssign x (XComp CDict k v (map (gen_of true) cl))) else None
+  | _, _ => None
+  end.
+
+Theorem dictcomp_order_refuted :
+  exists w s1 s2 s' en tr r r', site_dictcomp_old s1 s2 = Some s'
+    /\ exec_block w [s1; s2] en tr = Some r /\ exec_block w [s'] en tr = Some r' /\ snd r <> snd r'.
+Proof.
+  exists test_world, (SAssign 1 (XDict [])),
+    (SFor (TName 2) (XSeq KList [XConst (AInt 1)]) [SSetItem 1 (XCall 0 [XName 2]) (XCall 6 [XName 2])] []).
+  eexists. exists (fun _ => None), []. do 2 eexists. split; [reflexivity|].
+  split; [vm_compute; reflexivity|]. split; [vm_compute; reflexivity|]. vm_compute. discriminate.
+Qed.
